@@ -903,6 +903,70 @@ def str_chars(ex, args):
     return Chars(C(ex, args[0]))
 
 
+@dataclass(frozen=True, eq=False)
+class Bytes(IterBase):
+    """str::bytes over a concrete text: the UTF-8 bytes, as concrete u8 values"""
+    b: bytes
+    pos: int = 0
+
+    def next(self, ex):
+        if self.pos >= len(self.b):
+            return NONE, self
+        return some(self.b[self.pos]), Bytes(self.b, self.pos + 1)
+
+    def remaining_bytes(self):
+        return list(self.b[self.pos:])
+
+    def same_as(self, o):
+        return (self.b, self.pos) == (o.b, o.pos)
+
+
+@intrinsic('str::bytes')
+def str_bytes(ex, args):
+    return Bytes(C(ex, args[0]).encode('utf-8'))
+
+
+def _u8_arg(ex, v):
+    v = ex.deref(v)
+    ci = concrete_int(v)
+    if ci is None:
+        raise Unsupported('symbolic u8 in an ASCII class test')
+    return ci
+
+
+@intrinsic('u8::is_ascii_whitespace')
+def i_u8_is_ascii_whitespace(ex, args):
+    return _u8_arg(ex, args[0]) in (0x20, 0x9, 0xA, 0xC, 0xD)
+
+
+@intrinsic('u8::is_ascii')
+def i_u8_is_ascii(ex, args):
+    return _u8_arg(ex, args[0]) < 0x80
+
+
+@intrinsic('u8::is_ascii_alphabetic')
+def i_u8_is_ascii_alphabetic(ex, args):
+    c = _u8_arg(ex, args[0])
+    return 0x41 <= c <= 0x5A or 0x61 <= c <= 0x7A
+
+
+@intrinsic('u8::is_ascii_digit')
+def i_u8_is_ascii_digit(ex, args):
+    return 0x30 <= _u8_arg(ex, args[0]) <= 0x39
+
+
+@intrinsic('u8::is_ascii_alphanumeric')
+def i_u8_is_ascii_alphanumeric(ex, args):
+    c = _u8_arg(ex, args[0])
+    return 0x41 <= c <= 0x5A or 0x61 <= c <= 0x7A or 0x30 <= c <= 0x39
+
+
+@intrinsic('u8::is_ascii_punctuation')
+def i_u8_is_ascii_punctuation(ex, args):
+    c = _u8_arg(ex, args[0])
+    return 0x21 <= c <= 0x2F or 0x3A <= c <= 0x40 or 0x5B <= c <= 0x60 or 0x7B <= c <= 0x7E
+
+
 @intrinsic('str::char_indices')
 def str_char_indices(ex, args):
     return CharIndices(C(ex, args[0]))
